@@ -21,3 +21,17 @@ package sinkcluster
 //@   loop 1 invariant result.ChunkIncluded == inWindow && merged == inWindow
 //@   ensures err == nil ==> r != nil && r.ChunkIncluded == inWindow && merged == inWindow
 //@   ensures err != nil ==> r == nil
+//
+// The journal writer (C19): the sketch of the current interval is cleared, and the interval advanced, only after its
+// chunk has been written completely; a failed write keeps both, so the next chunk still covers those addresses.
+//@ ghost var chunkWritten bool
+//@ func (c *ClusterWriter) WriteIPSetToDisk()
+//@   props C19
+//@   model int
+//@   requires c != nil
+//   (both fields are given to NewClusterWriter by main of the broker and never reassigned)
+//@   assumes c.current != nil && c.writer != nil
+//@   at entry ghost chunkWritten = false
+//@   after call Copy ghost chunkWritten = ret1 == nil
+//@   at call Reset assert {sketch-cleared-only-after-its-chunk-was-written} calls(Copy) == 1 && chunkWritten && calls(Sync) == 1
+//@   ensures {all-or-nothing} (calls(Reset) == 1 && chunkWritten) || (calls(Reset) == 0 && c.lastWriteTime == old(c.lastWriteTime))
